@@ -504,8 +504,18 @@ theorem csv_int_column (col : List String) (h : ∀ s ∈ col, isIntText s = tru
 /-- the readers keep labels such as "NA" (D24), open the first sheet when none is named (D15), and
 `make_empty_stocks` hands the solver on (D23) -/
 theorem source_build_sites :
-    Gen.dimReadersKeepLabels = true ∧ Gen.excelDefaultSheetIsFirst = true ∧ Gen.stocksGetSolver = true := by
+    Gen.dimReadersKeepLabels = true ∧ Gen.excelDefaultSheetIsFirst = true ∧ Gen.stocksGetSolver = true ∧
+    Gen.stockDefaultTimeLetter = "t" := by
   decide
+
+/-- a stock definition that names no time letter gets the fixed default (`Gen.stockDefaultTimeLetter`,
+regenerated from the field's declaration: `t`), never "whatever comes first": unless its dimensions
+start with `t` it is refused when the stock is built -/
+theorem default_time_letter_not_first_refused (procs : List (String × ProcessM)) (dims : DimSet) (sd : StockDef)
+    (sub : DimSet) (hs : getSubset? dims (some sd.letters) = some sub)
+    (htl : sd.timeLetter = Gen.stockDefaultTimeLetter) (h : (letters sub).head? ≠ some 't') :
+    stockOf? procs dims sd = none :=
+  stock_time_not_first procs dims sd sub hs 't' (by rw [htl]; decide) h
 
 /-! ## non-vacuity: a concrete definition meets the hypotheses -/
 
